@@ -33,9 +33,10 @@ type Scenario struct {
 	Kind       string           `json:"kind"`    // axfr | ixfr-inc | ixfr-axfr | ixfr-uptodate
 	Records    int              `json:"records"` // records besides the SOAs (axfr / ixfr-axfr), or per difference section (ixfr-inc)
 	Seqs       int              `json:"seqs,omitempty"`
-	Cuts       []int            `json:"cuts,omitempty"` // envelope boundaries: indices into the record sequence after which a new envelope starts
-	Sender     string           `json:"sender"`         // out (real Server + Transfer.Out) | scripted
-	Alg        string           `json:"alg,omitempty"`  // TSIG algorithm ("" = no TSIG)
+	AllCuts    bool             `json:"all_cuts,omitempty"` // the scenario is run once for every composition of its record sequence into envelopes (small zones: at most 9 records), Cuts is ignored
+	Cuts       []int            `json:"cuts,omitempty"`     // envelope boundaries: indices into the record sequence after which a new envelope starts
+	Sender     string           `json:"sender"`             // out (real Server + Transfer.Out) | scripted
+	Alg        string           `json:"alg,omitempty"`      // TSIG algorithm ("" = no TSIG)
 	ClientKey  bool             `json:"client_key,omitempty"`
 	ServerKey  bool             `json:"server_key,omitempty"`
 	Fudge      int              `json:"fudge,omitempty"`
@@ -100,6 +101,9 @@ func Gen(seed uint64, tier string) any {
 				sc.Cuts = append(sc.Cuts, i)
 			}
 		}
+	}
+	if n <= 9 && core.Chance(r, map[bool]int{true: 12, false: 2}[tier == "thorough"]) {
+		sc.AllCuts, sc.Cuts = true, nil
 	}
 	sc.Sender = core.Pick(r, "out", "scripted")
 	if core.Chance(r, 55) {
@@ -237,6 +241,15 @@ func Shrink(x any) []any {
 		n := &Scenario{}
 		json.Unmarshal(b, n)
 		return n
+	}
+	if sc.AllCuts {
+		// first find the composition that fails
+		for _, cuts := range compositions(totalRecords(sc)) {
+			n := cp()
+			n.AllCuts, n.Cuts = false, cuts
+			out = append(out, n)
+		}
+		return out
 	}
 	for i := range sc.Ops {
 		n := cp()
@@ -759,9 +772,55 @@ func (d doneCheck) Check(time.Time) string {
 	return ""
 }
 
+// compositions lists every way of cutting n records into consecutive envelopes.
+func compositions(n int) [][]int {
+	var out [][]int
+	for mask := 0; mask < 1<<max(n-1, 0); mask++ {
+		var cuts []int
+		for i := 1; i < n; i++ {
+			if mask&(1<<(i-1)) != 0 {
+				cuts = append(cuts, i)
+			}
+		}
+		out = append(out, cuts)
+	}
+	return out
+}
+
 func Run(t *testing.T, scAny any, verbose bool) *core.Result {
 	sc := scAny.(*Scenario)
 	res := &core.Result{Seed: sc.RunSeed, Verdict: core.OK, Stats: map[string]int{}}
+	if sc.AllCuts {
+		// every composition of the record sequence into envelopes, one simulated session each
+		var digest uint64
+		steps, simns := 0, int64(0)
+		for _, cuts := range compositions(totalRecords(sc)) {
+			c := *sc
+			c.AllCuts, c.Cuts = false, cuts
+			c.Ops = append([]common.FrameOp(nil), sc.Ops...)
+			for i := range c.Ops { // the fault plan names envelopes: keep it inside this composition
+				c.Ops[i].Env %= len(cuts) + 1
+			}
+			one := &core.Result{Seed: sc.RunSeed, Verdict: core.OK, Stats: res.Stats}
+			leak := common.Bubble(t, func() { runIn(&c, one, false) })
+			if leak != "" && one.Verdict == core.OK {
+				one.Fail("T2", "goroutine-leak", "%s", leak)
+			}
+			digest = digest*1099511628211 ^ one.Digest
+			steps += one.Steps
+			simns += one.SimNS
+			res.Bump("cover.compositions_swept")
+			res.Class, res.Nontrivial = one.Class, res.Nontrivial || one.Nontrivial
+			if one.Verdict != core.OK {
+				res.Verdict, res.Oracle, res.Sig = one.Verdict, one.Oracle, one.Sig
+				res.Msg = fmt.Sprintf("[envelope boundaries %v] %s", cuts, one.Msg)
+				break
+			}
+		}
+		res.Digest, res.Steps, res.SimNS = digest, steps, simns
+		res.Bump("fault.all_envelope_compositions")
+		return res
+	}
 	leak := common.Bubble(t, func() { runIn(sc, res, verbose) })
 	if leak != "" && res.Verdict == core.OK {
 		res.Fail("T2", "goroutine-leak", "%s", leak)
